@@ -10,7 +10,7 @@ DEVIATIONS = ('wrong-id', 'id-plus-2^32', 'other-pub-time', 'other-aggr-time', '
               'other-input-hash', 'altered-right-link', 'status-nonzero', 'status-nonzero-with-chain', 'error-pdu', 'bad-mac', 'other-key-valid-mac', 'other-pdu-version',
               'no-chain', 'truncated', 'garbled', 'transport-error', 'http-500', 'consistent-chain-for-other-second',
               # the same deviations in a reply that carries no status element at all
-              'no-header-valid-mac', 'no-mac', 'input-hash-other-algorithm', 'right-link-other-algorithm', 'no-status+wrong-id', 'no-status+other-pub-time', 'no-status+other-aggr-time', 'no-status+wrong-shape-add-link', 'no-status+other-input-hash')
+              'no-header-valid-mac', 'no-mac', 'input-hash-other-algorithm', 'right-link-other-algorithm', 'no-status+wrong-id', 'no-status+other-pub-time', 'no-status+other-aggr-time', 'no-status+wrong-shape-add-link', 'no-status+other-input-hash', 'reflected-request')
 NOT_JUDGED = ('no-status+honest',)     # a complete, correct reply without a status element: the property does not say (the library reads it as status 0)
 
 
@@ -132,6 +132,23 @@ class Extender:
             body = S.ext_response(req, ch, self.key, version=ver, alg=self.alg, status=status, req_id=rid, login=self.login,
                                   errmsg='failure' if status else None, last_time=pp if rng.random() < 0.6 else None, **kw)
         self.reply_chain = chain
+        if b == 'reflected-request':
+            # needs no key: the client's own request PDU (header, request element, the MAC the client computed) sent back with a response element for
+            # another root spliced in. Version 1 authenticates header + ONE payload; version 2 the whole PDU - neither may take this for an authentic reply
+            # (the forged chain starts at the signature's own aggregation root and has the right shape, but belongs to a calendar of the forger's making)
+            forged = S.Calendar(b'forged-calendar').chain(t, pp, self.root, aggr_time_field=True)
+            top = R.expand(R.read_tlv(raw)[0])
+            kids = top.kids()
+            if ver == 1:
+                resp = R.expand(R.read_tlv(S.ext_response(req, forged, self.key, version=1, alg=self.alg, req_id=rid, login=self.login))[0]).one(0x302)
+                macs = [k for k in kids if k.tag == 0x1f]
+                rest = [k for k in kids if k.tag != 0x1f]
+                body = R.T(0x300, (rest + [resp] if rng.random() < 0.5 else [k for k in rest if k.tag == 1] + [resp] + [k for k in rest if k.tag != 1]) + macs).enc()
+            else:
+                resp = R.expand(R.read_tlv(S.ext_response(req, forged, self.key, version=2, alg=self.alg, req_id=rid, login=self.login))[0]).one(2)
+                macs = [k for k in kids if k.tag == 0x1f]
+                rest = [k for k in kids if k.tag != 0x1f]
+                body = R.T(S.EXT_RESP_V2, rest[:1] + [resp] + rest[1:] + macs).enc()
         if b == 'truncated':
             body = body[:rng.randrange(0, len(body))]
         elif b == 'garbled':
@@ -201,6 +218,14 @@ def run_worker(job, r):
         src = gen.gen_signature(rng, time=t, with_cal=anchor != 'nocal', anchor=anchor if anchor != 'nocal' else None, rfc=(rng.random() < 0.1),
                                 pub_time=p0, calendar=cal)
         raw = src.enc()
+        if rng.random() < 0.3:
+            # the element order older aggregators wrote: authentication / publication record (and calendar chain) BEFORE the aggregation chains
+            top = R.expand(R.read_tlv(raw)[0])
+            first = [k for k in top.kids() if k.tag in (R.TAG_CALAUTH, R.TAG_PUBREC)]
+            cal_ = [k for k in top.kids() if k.tag == R.TAG_CAL]
+            rest = [k for k in top.kids() if k.tag not in (R.TAG_CALAUTH, R.TAG_PUBREC, R.TAG_CAL)]
+            raw = R.T(R.TAG_SIG, first + cal_ + rest).enc()
+            r.count('sources_with_trust_record_first')
         srv.root = src.root
         srv.src_cal = src.cal
         how = rng.choice(['head', 'to-later', 'to-equal', 'to-earlier', 'pubrec', 'pubrec-wrong-hash'])
